@@ -6,6 +6,7 @@ Case lines
   3 i k code a b          op for node i in its k-th user-code run (k=-1 start hook, k=-2 default)
      code 1 schedule(now+a, tag b)  2 un_schedule(tag b)  3 un_schedule()  4 pop_tag(b)  5 reset()
           6 emit a + sum(valid inputs)  7 graph.schedule_node(self, now+a)  8 throw
+          9 input[a].make_passive()  10 input[a].make_active()   (run-time activation)
 Observation lines
   10 t                     root cycle at t
   11 i t                   node i evaluated by the graph at t
@@ -102,6 +103,8 @@ def gen(rng, tier, prop):
                         ops.append([7, -1, 0])
                     elif r < 0.985:
                         ops.append([8, 0, 0])
+                    elif ins:
+                        ops.append([rng.choice([9, 9, 10]), rng.randrange(len(ins)), 0])
                 if not ops:
                     ops = [[0, 0, 0]]  # explicit empty script for run k (overrides the default)
                 for op in ops:
@@ -160,8 +163,18 @@ def oracle(prop, case, out):
     n = len(nodes)
     pending = [set() for _ in range(n)]          # spec: the set of pending (time, tag)
     abandoned = [set() for _ in range(n)]        # times once requested through the scheduler and later cancelled / replaced
-    raw = [set() for _ in range(n)]              # raw graph requests still outstanding
+    raw = [None] * n                             # the raw (stateless) request outstanding: the graph slot keeps only the earliest (by design)
+    raw_dropped = set()                          # times raw-requested and then superseded by an earlier request / evaluation (min semantics)
+
+    def raw_req(i, w, now):
+        if raw[i] is None or w < raw[i]:
+            if raw[i] is not None:
+                raw_dropped.add(raw[i])
+            raw[i] = w
+        else:
+            raw_dropped.add(w)
     outv = [None] * n                            # (value, time) of last emission
+    actv = [[bool(a) for (_s, a, _r) in nd["ins"]] for nd in nodes]   # current activity of every input (run-time make_active / make_passive)
     emitted_at = {}                              # (node, t) -> True
     err = any(l[0] == 19 for l in out)
     cycles = [l[1] for l in out if l[0] == 10]
@@ -214,9 +227,9 @@ def oracle(prop, case, out):
                     idx += 1
             elif code == 7:
                 if a >= 0:
-                    raw[i].add(start + a)
+                    raw_req(i, start + a, start)
         if nodes[i]["sos"]:
-            raw[i].add(start)
+            raw_req(i, start, start)
 
     # ---- replay the trace
     cur = None
@@ -234,9 +247,11 @@ def oracle(prop, case, out):
         # after the evaluation of node i at t the due events are consumed
         for e in [e for e in pending[i] if e[0] <= t]:
             pending[i].discard(e)
-        raw[i].discard(t)
+        cur_raw[i] = False
 
     open_eval = None
+    cur_raw = {}
+    woke = {}
     while pos < L:
         l = out[pos]
         if l[0] == 10:
@@ -249,10 +264,9 @@ def oracle(prop, case, out):
                     if e[0] < l[1]:
                         fails.append(("missed_wakeup", "node %d pending %s not honoured before cycle %d" % (i, e, l[1])))
                         pending[i].discard(e)
-                for w in sorted(raw[i]):
-                    if w < l[1]:
-                        fails.append(("missed_raw", "node %d raw request at %d not honoured before cycle %d" % (i, w, l[1])))
-                        raw[i].discard(w)
+                if raw[i] is not None and raw[i] < l[1]:
+                    fails.append(("missed_raw", "node %d raw request at %d not honoured before cycle %d" % (i, raw[i], l[1])))
+                    raw[i] = None
             cur = l[1]
             evaluated[cur] = set()
             ran[cur] = set()
@@ -262,15 +276,20 @@ def oracle(prop, case, out):
             i, t = l[1], l[2]
             if i in evaluated.get(t, set()):
                 fails.append(("evaluated_twice", "node %d evaluated twice at %d" % (i, t)))
+            if evaluated.get(t) and i <= max(evaluated[t]):
+                fails.append(("scan_order", "node %d evaluated at %d after node %d: the scan went backwards" % (i, t, max(evaluated[t]))))
             evaluated.setdefault(t, set()).add(i)
             # C03 / C02: why is it evaluated?
             why = []
             if due(i, t):
                 why.append("sched")
-            if t in raw[i]:
+            if raw[i] == t:
                 why.append("raw")
-            for (src, act, _req) in nodes[i]["ins"]:
-                if act and emitted_at.get((src, t)):
+            elif raw[i] is not None:
+                raw_dropped.add(raw[i])   # the slot is consumed by this earlier evaluation (min semantics, by design)
+            raw[i] = None
+            for s_i, (src, _a, _req) in enumerate(nodes[i]["ins"]):
+                if woke.get((i, t, s_i)):
                     why.append("input")
             if not why:
                 kind = "spurious_eval_abandoned" if t in abandoned[i] else "spurious_eval"
@@ -278,6 +297,12 @@ def oracle(prop, case, out):
                               " (abandoned times %s)" % (i, t, sorted(abandoned[i]))))
             cause[(i, t)] = why
             open_eval = (i, t)
+            # C03: evaluated and ready <=> user code runs (the 12-line follows immediately)
+            nd = nodes[i]
+            is_ready = all(outv[src] is not None for (src, _a, req) in nd["ins"] if nd["vmode"] == 0 or req)
+            ran_now = pos + 1 < L and out[pos + 1][0] == 12 and out[pos + 1][1] == i and out[pos + 1][2] == t
+            if is_ready and not ran_now and not err:
+                fails.append(("not_run", "node %d evaluated at %d with all required inputs valid but user code did not run" % (i, t)))
         elif l[0] == 12:
             i, t, k = l[1], l[2], l[3]
             ran.setdefault(t, set()).add(i)
@@ -328,8 +353,14 @@ def oracle(prop, case, out):
                         if not err:
                             fails.append(("trace_shape", "missing 13-line for node %d run %d op %d" % (i, k, opi)))
                 elif code == 7:
-                    if a >= 0:
-                        raw[i].add(t + a)
+                    if a > 0:
+                        raw_req(i, t + a, t)
+                        cur_raw[i] = True
+                    elif a == 0 and raw[i] is not None:
+                        raw_dropped.add(raw[i])   # schedule_now while being evaluated overrides a later raw request
+                        raw[i] = None
+                elif code in (9, 10) and 0 <= a < len(nd["ins"]):
+                    actv[i][a] = (code == 10)
                 elif code == 6 and nd["ho"]:
                     pass
                 opi += 1
@@ -337,6 +368,10 @@ def oracle(prop, case, out):
             i, t, v = l[1], l[2], l[3]
             outv[i] = (v, t)
             emitted_at[(i, t)] = True
+            for j in range(n):                    # which inputs are subscribed at the moment of the write
+                for s_j, (src, _a, _r) in enumerate(nodes[j]["ins"]):
+                    if src == i and actv[j][s_j]:
+                        woke[(j, t, s_j)] = True
         pos += 1
     if open_eval is not None:
         finish_eval(*open_eval)
@@ -345,22 +380,32 @@ def oracle(prop, case, out):
             for e in sorted(pending[i]):
                 if start <= e[0] < end:
                     fails.append(("missed_wakeup", "node %d pending %s never honoured (end %d)" % (i, e, end)))
-            for w in sorted(raw[i]):
-                if start <= w < end:
-                    fails.append(("missed_raw", "node %d raw request at %d never honoured" % (i, w)))
+            if raw[i] is not None and start <= raw[i] < end:
+                fails.append(("missed_raw", "node %d raw request at %d never honoured" % (i, raw[i])))
         # C03 "exactly when": evaluated and ready => user code ran; active input ticked => evaluated
         for t in cycles:
-            if not evaluated.get(t):
-                fails.append(("empty_cycle", "cycle at %d evaluated no node" % t))
-            for i in evaluated.get(t, ()):  # evaluated implies ran iff ready — checked through 12 lines above
-                pass
+            evs = evaluated.get(t, set())
+            if not evs:
+                if any(t in abandoned[i] for i in range(n)):
+                    fails.append(("spurious_cycle_abandoned", "cycle at %d evaluated no node; the time is a cancelled / replaced scheduler request" % t))
+                elif t not in raw_dropped:
+                    fails.append(("empty_cycle", "cycle at %d evaluated no node" % t))
+            elif all(not cause.get((i, t)) for i in evs):
+                kind = "spurious_cycle_abandoned" if all(t in abandoned[i] for i in evs) else "spurious_cycle"
+                fails.append((kind, "cycle at %d: nothing (still) requested it; evaluated nodes %s" % (t, sorted(evs))))
+            # C03: an active input ticked => the consumer is evaluated in that cycle
+            for i in range(n):
+                for s_i, (src, _a, _r) in enumerate(nodes[i]["ins"]):
+                    if woke.get((i, t, s_i)) and i not in evs:
+                        fails.append(("not_evaluated", "node %d not evaluated at %d although active input from %d ticked" % (i, t, src)))
     # emitted value is the function of the inputs read
     return fails
 
 
 PROP_KINDS = {
+    "C01": {"evaluated_twice", "scan_order", "stale_read", "not_evaluated", "run_without_eval"},
     "C02": {"cycle_order", "cycle_window", "missed_wakeup", "missed_raw", "empty_cycle", "spurious_cycle", "spurious_cycle_abandoned"},
-    "C03": {"spurious_eval", "spurious_eval_abandoned", "stale_read", "ran_not_ready", "run_without_eval", "run_index",
+    "C03": {"missed_wakeup", "spurious_eval", "spurious_eval_abandoned", "stale_read", "ran_not_ready", "run_without_eval", "run_index",
             "evaluated_twice", "not_evaluated", "not_run", "emit_value"},
     "C18": {"query_mismatch", "tag_multi", "missed_wakeup", "spurious_eval_abandoned", "trace_shape"},
 }
